@@ -30,12 +30,110 @@ let print_state (st : obj list) : string =
       add (List.length o.o_parents); List.iter (fun c -> add (int_of_nat c)) o.o_parents) st;
   String.trim (Buffer.contents b)
 
+(* module-level operations:
+   MOP <lagged> <fuel> <op> <args..> ST <state tokens> INFO { alive natoms atom.. }*nobj AT <n> rc..
+   ops: deletebias b | deletecolvar v | reset | enable o f | disable o f
+        | newcolvar navail a.. ncvc { navail a.. ngrp { navail a.. natoms id.. } }
+        | newbias navail a.. nvs v..
+   output: <0|FUEL> <state tokens> INFO .. AT .. *)
+let print_mstate (m : mstate) : string =
+  let b = Buffer.create 1024 in
+  Buffer.add_string b (print_state m.m_objs);
+  Buffer.add_string b " INFO";
+  List.iter (fun i ->
+      Buffer.add_string b (if i.i_alive then " 1" else " 0");
+      Buffer.add_string b (" " ^ string_of_int (List.length i.i_atoms));
+      List.iter (fun a -> Buffer.add_string b (" " ^ string_of_int (int_of_nat a))) i.i_atoms) m.m_info;
+  Buffer.add_string b (" AT " ^ string_of_int (List.length m.m_atoms));
+  List.iter (fun r -> Buffer.add_string b (" " ^ string_of_int (int_of_z r))) m.m_atoms;
+  Buffer.contents b
+
+let do_mop (w : string array) : unit =
+  let p = ref 1 in
+  let next () = let s = w.(!p) in Stdlib.incr p; s in
+  let ni () = int_of_string (next ()) in
+  let nn () = nat_of_int (ni ()) in
+  let nb () = ni () <> 0 in
+  let lagged = nb () in
+  let fuel = nn () in
+  let opname = next () in
+  let tabs = if lagged then gen_tables_lagged else gen_tables in
+  let blist () = let k = ni () in List.init k (fun _ -> nb ()) in
+  let nlist () = let k = ni () in List.init k (fun _ -> nn ()) in
+  let op =
+    match opname with
+    | "deletebias" -> let b = nn () in MDeleteBias b
+    | "deletecolvar" -> let v = nn () in MDeleteColvar v
+    | "reset" -> MReset
+    | "check" -> MReset   (* not executed: wf_check / acct_check of the given state *)
+    | "enable" -> let o = nn () in let f = nn () in MPrim (OpEnable (o, f, false, true, false))
+    | "disable" -> let o = nn () in let f = nn () in MPrim (OpDisable (o, f))
+    | "newcolvar" ->
+      let av = blist () in
+      let nc = ni () in
+      let cs = List.init nc (fun _ ->
+          let cav = blist () in
+          let ng = ni () in
+          let gs = List.init ng (fun _ -> let gav = blist () in let at = nlist () in (gav, at)) in
+          (cav, gs)) in
+      MNewColvar (av, cs)
+    | "newbias" -> let av = blist () in let vs = nlist () in MNewBias (av, vs)
+    | _ -> failwith "unknown module op" in
+  if next () <> "ST" then failwith "ST expected";
+  let nobj = ni () in
+  let st = List.init nobj (fun _ ->
+      let cls = nn () in let nf = ni () in
+      let fs = List.init nf (fun _ ->
+          let av = nb () in let en = nb () in let rc = z_of_int (ni ()) in
+          let na = ni () in let alts = List.init na (fun _ -> nn ()) in
+          { fs_avail = av; fs_enabled = en; fs_rc = rc; fs_alt = alts }) in
+      let nch = ni () in let ch = List.init nch (fun _ -> nn ()) in
+      let npa = ni () in let pa = List.init npa (fun _ -> nn ()) in
+      { o_class = cls; o_fs = fs; o_children = ch; o_parents = pa }) in
+  if next () <> "INFO" then failwith "INFO expected";
+  let info = List.init nobj (fun _ -> let al = nb () in let at = nlist () in { i_alive = al; i_atoms = at }) in
+  if next () <> "AT" then failwith "AT expected";
+  let na = ni () in
+  let atoms = List.init na (fun _ -> z_of_int (ni ())) in
+  let m = { m_objs = st; m_info = info; m_atoms = atoms } in
+  if opname = "check" then
+    Printf.printf "%d %d\n" (if wf_check m then 1 else 0) (if acct_check m then 1 else 0)
+  else
+  match m_step tabs fuel op m with
+  | None -> print_string "FUEL\n"
+  | Some m' -> Printf.printf "0 %s\n" (print_mstate m')
+
+(* CHK <lagged> <G> ST <state tokens>  ->  <consistent_check> <excl_check>   (both proved sound) *)
+let do_chk (w : string array) : unit =
+  let p = ref 1 in
+  let next () = let s = w.(!p) in Stdlib.incr p; s in
+  let ni () = int_of_string (next ()) in
+  let nn () = nat_of_int (ni ()) in
+  let nb () = ni () <> 0 in
+  let lagged = nb () in
+  let g = nn () in
+  let tabs = if lagged then gen_tables_lagged else gen_tables in
+  if next () <> "ST" then failwith "ST expected";
+  let nobj = ni () in
+  let st = List.init nobj (fun _ ->
+      let cls = nn () in let nf = ni () in
+      let fs = List.init nf (fun _ ->
+          let av = nb () in let en = nb () in let rc = z_of_int (ni ()) in
+          let na = ni () in let alts = List.init na (fun _ -> nn ()) in
+          { fs_avail = av; fs_enabled = en; fs_rc = rc; fs_alt = alts }) in
+      let nch = ni () in let ch = List.init nch (fun _ -> nn ()) in
+      let npa = ni () in let pa = List.init npa (fun _ -> nn ()) in
+      { o_class = cls; o_fs = fs; o_children = ch; o_parents = pa }) in
+  Printf.printf "%d %d\n" (if consistent_check tabs st g then 1 else 0) (if excl_check tabs st then 1 else 0)
+
 let () =
   try
     while true do
       let line = input_line stdin in
       let w = Array.of_list (words line) in
-      if Array.length w > 0 then begin
+      if Array.length w > 0 && w.(0) = "MOP" then do_mop w
+      else if Array.length w > 0 && w.(0) = "CHK" then do_chk w
+      else if Array.length w > 0 then begin
         let p = ref 1 in
         let next () = let s = w.(!p) in Stdlib.incr p; s in
         let ni () = int_of_string (next ()) in
